@@ -11,7 +11,8 @@
    inclusive.                                                                 *)
 EXTENDS Rat, TLC, Json, FiniteSetsExt
 
-CONSTANTS NWin, Patterns, LtaChunks, CompSets, Limits, MaxThr, Export
+CONSTANTS NWin, Patterns, LtaChunks, CompSets, Limits, MaxThr, Export,
+          LtaHalf     \* TRUE: the long-term window covers LtaChunks + 1/2 short-term chunks (lta_seconds not a multiple of sta_seconds)
 \* Limits and MaxThr are sequences of equal length: one index selects both criteria
 
 Comps == <<"ns", "ew", "vt">>
@@ -27,15 +28,27 @@ VARIABLES pat,    \* pat[w][i] : index into Patterns of component i of window w
 vars == <<pat, comps, lim, thr, done, res>>
 
 Chunk(w, i) == Patterns[pat[w][i]]
-Lta(w, i)   == LET q == Chunk(w, i) IN Q(ISumSeq(SubSeq(q, 1, LtaChunks)), LtaChunks)
+\* mean absolute amplitude of the leading lta_seconds of the window: whole chunks, plus half of the next one if LtaHalf
+Lta(w, i)   == LET q == Chunk(w, i)
+               IN  IF LtaHalf THEN Q(2 * ISumSeq(SubSeq(q, 1, LtaChunks)) + q[LtaChunks + 1], 2 * LtaChunks + 1)
+                   ELSE Q(ISumSeq(SubSeq(q, 1, LtaChunks)), LtaChunks)
 Ratio(w, i, k) == RDiv(R(Chunk(w, i)[k]), Lta(w, i))
 
 InsideStrict(x, l) == RLt(l[1], x) /\ RLt(x, l[2])
 OnLimit(x, l)      == x = l[1] \/ x = l[2]
 InsideIncl(x, l)   == RLe(l[1], x) /\ RLe(x, l[2])
 
-CompSure(w, c, l) == \A k \in 1..Len(Chunk(w, CompIdx(c))) : InsideStrict(Ratio(w, CompIdx(c), k), l)
-CompMay(w, c, l)  == \A k \in 1..Len(Chunk(w, CompIdx(c))) : InsideIncl(Ratio(w, CompIdx(c), k), l)
+\* The verdict of a component depends on its chunk pattern and the limits only: tabulated once (a constant-level definition,
+\* evaluated by TLC a single time) - 2 = every ratio strictly inside, 1 = inside or on a limit, 0 = some ratio outside.
+LtaOfPattern(q) == IF LtaHalf THEN Q(2 * ISumSeq(SubSeq(q, 1, LtaChunks)) + q[LtaChunks + 1], 2 * LtaChunks + 1)
+                   ELSE Q(ISumSeq(SubSeq(q, 1, LtaChunks)), LtaChunks)
+PatVerdict(q, l) == LET lta == LtaOfPattern(q)
+                    IN  IF \A k \in 1..Len(q) : InsideStrict(RDiv(R(q[k]), lta), l) THEN 2
+                        ELSE IF \A k \in 1..Len(q) : InsideIncl(RDiv(R(q[k]), lta), l) THEN 1 ELSE 0
+VerdictTable == [p \in 1..Len(Patterns) |-> [k \in 1..Len(Limits) |-> PatVerdict(Patterns[p], Limits[k])]]
+LimIdx(l) == CHOOSE k \in 1..Len(Limits) : Limits[k] = l
+CompSure(w, c, l) == VerdictTable[pat[w][CompIdx(c)]][LimIdx(l)] = 2
+CompMay(w, c, l)  == VerdictTable[pat[w][CompIdx(c)]][LimIdx(l)] >= 1
 
 RangeOf(s) == { s[i] : i \in 1..Len(s) }
 
